@@ -175,6 +175,9 @@ type attr struct {
 	// ambiguousNameEnd indicates whether it is unknown, due to context-joining, if name has ended:
 	// one joined branch ended inside the attribute name and another one after it.
 	ambiguousNameEnd bool
+	// nameSplit indicates whether template text of a later text node has extended the attribute
+	// name, as in `<img src{{if .C}}{{end}}set="...">`. name holds the first part only.
+	nameSplit bool
 	// names contains all possible names the attribute could assume because of context joining.
 	// For example, after joining the contexts in the "if" and "else" branches of
 	//     <a {{if .C}}title{{else}}name{{end}}="foo">
